@@ -4,6 +4,17 @@ HERE = os.path.dirname(os.path.abspath(__file__))
 BASE_CMD = "cd /repo && /venv/bin/python -m pytest -ra -q -p no:cacheprovider --timeout=900 --continue-on-collection-errors"
 
 CLAIMED = {
+ 'C19': dict(
+    text=("Proof, partly over an assumed contract: deductively verified on the real source are CallSite/CallPath (equality, hash, validity), "
+          "PathTrie.{__init__,path_exists,remove_path}, TrieNode.__init__ and PathManager.{__init__,add_path,remove_path,path_exists}: the manager's "
+          "view always equals the trie's stored set, an invalid path is never stored, an addition is accepted iff no stored path extends or equals it and "
+          "evicts exactly the stored proper prefixes, removal removes exactly that path. The history sentences (stored set == maximal valid added paths "
+          "after any sequence of additions; re-adding after removal) are proved as induction lemmas over those contracts. PathTrie.add_path and "
+          "_mark_non_terminal (the two trie walks) are NOT proved: their contract is assumed and checked by a bounded stand-in on the real code "
+          "(exhaustive add/remove sequences; the evidence states the bound and lists it under 'bounded', never under 'discharged')."),
+    note=("Trusted: lianvc + encoding, z3. Assumed contract for the two trie walks (bounded stand-in only). CallSite/CallPath immutable value objects; "
+          "ids are ints; hash() uninterpreted."),
+    design='§4 C19', category='proof'),
  'C20': dict(
     text=("Proof: the VCs generated from the real source of the entry-point selection chain are discharged by z3 for all rule lists, units and "
           "method tables: check_file_processing_flag_and_extract_lang (exact flag), EntryPointRule.check_availablility, "
